@@ -16,6 +16,9 @@ RULES = {
     "R15.3": "refunds (BankMsg::Send / cw20 Transfer of the stored deposit amount to the stored proposer) are emitted only in "
              "Execute on the path that writes Executed whenever a deposit is stored, and in Close on the path that writes "
              "Rejected exactly when deposit.refund_failed_proposals is true; no other entry point or variant refunds",
+    "R15.5": "at most once (shared with C05 R05.1 / R05.3): the refunding writes cannot be repeated - status := Executed only from "
+             "current_status == Passed, status := Rejected only from a stored status that is not Executed / Rejected / Passed, not "
+             "passed and expired - so neither Execute nor Close (and hence their refund) can succeed twice on one proposal",
     "R15.4": "recoverability: since Close refuses proposals whose stored status is Rejected, no path other than Close may "
              "persist a status that can evaluate to Rejected (status := current_status(..)) without emitting the refund",
 }
@@ -133,6 +136,14 @@ def run(ctx):
     ctx.floor("R15.3", "refund sites", n_refund, 2)
     ctx.ob("R15.4", "Close refuses stored Rejected (premise)", True, trivial=True, sample={"close_refuses_rejected": close_refuses_rejected})
     check_paid_body(ctx)
+    from . import C05
+    sub = type(ctx)(ctx.pid, ctx.facts, ctx.engine, ctx.tier, ctx.tree_hash)
+    C05.run(sub)
+    for k in sub.order:
+        o = sub.obs[k]
+        if o.rule in ("R05.1", "R05.3") and "cw3_flex_multisig" in o.key and ("Executed write" in o.key or "Rejected write" in o.key):
+            ctx.ob("R15.5", o.key, True if o.status == "discharged" else (None if o.status == "undecided" else False),
+                   detail="; ".join(o.details), sites=o.sites, sample=o.sample)
 
 
 def is_pull(m, d):
